@@ -105,20 +105,25 @@ func InjectDiagnostics(content string, diags []Diagnostic, color output.Color) s
 				if !ok {
 					continue
 				}
+				// One mark per column: a caret if the column is inside any range of this line,
+				// a blank if some range is still ahead, nothing after the last range.
+				var before, inside bool
 				for _, pos := range diagPositions[i] {
 					if pos.Line != lineIndex+1 {
 						continue
 					}
-					before := pos.FirstColumn > columnIndex+1
-					inside := pos.FirstColumn <= columnIndex+1 && pos.LastColumn >= columnIndex+1
-					switch {
-					case before:
-						nextLine[i].WriteRune(' ')
-					case inside && disablePoints[i]:
-						nextLine[i].WriteRune(' ')
-					case inside && !disablePoints[i]:
-						nextLine[i].WriteRune('^')
+					if pos.FirstColumn > columnIndex+1 {
+						before = true
 					}
+					if pos.FirstColumn <= columnIndex+1 && pos.LastColumn >= columnIndex+1 {
+						inside = true
+					}
+				}
+				switch {
+				case inside && !disablePoints[i]:
+					nextLine[i].WriteRune('^')
+				case inside || before:
+					nextLine[i].WriteRune(' ')
 				}
 			}
 		}
